@@ -195,10 +195,15 @@ class RestAPI(object):
             try:
                 params = json.loads(data.decode("utf8"))
             except ValueError as e:
-                params = ""
+                params = {}
                 self.logger.error(
                     "Message body {} does not contain valid JSON".format(data)
                 )
+
+            # The actions take their arguments from a JSON object, anything
+            # else (a JSON array, string, number...) carries no arguments.
+            if not isinstance(params, dict):
+                params = {}
 
             # ------------------------------------------------------------------
 
@@ -241,7 +246,7 @@ class RestAPI(object):
 
                 # Get State Machine type (STANDARD or EXPRESS) if supplied
                 type = params.get("type", "STANDARD")
-                if type not in {"STANDARD", "EXPRESS"}:
+                if type not in ("STANDARD", "EXPRESS"):
                     self.logger.error(
                         "RestAPI CreateStateMachine: State Machine type {} "
                         "is not supported".format(type)
@@ -269,7 +274,8 @@ class RestAPI(object):
                 character limit described in the CreateStateMachine API page.
                 https://docs.aws.amazon.com/step-functions/latest/apireference/API_CreateStateMachine.html
                 """
-                if len(definition) == 0 or len(definition) > MAX_STATE_MACHINE_LENGTH:
+                if (not isinstance(definition, str) or
+                    len(definition) == 0 or len(definition) > MAX_STATE_MACHINE_LENGTH):
                     self.logger.error(
                         "RestAPI CreateStateMachine: Invalid definition size for State Machine '{}'.".format(name)
                     )
@@ -503,7 +509,8 @@ class RestAPI(object):
                     character limit described in the UpdateStateMachine API page.
                     https://docs.aws.amazon.com/step-functions/latest/apireference/API_UpdateStateMachine.html
                     """
-                    if len(definition) == 0 or len(definition) > MAX_STATE_MACHINE_LENGTH:
+                    if (not isinstance(definition, str) or
+                        len(definition) == 0 or len(definition) > MAX_STATE_MACHINE_LENGTH):
                         self.logger.error(
                             "RestAPI CreateStateMachine: Invalid definition size for State Machine '{}'.".format(name)
                         )
@@ -614,7 +621,7 @@ class RestAPI(object):
                 quota described in Stepfunction Quotas page.
                 https://docs.aws.amazon.com/step-functions/latest/dg/limits.html
                 """
-                if len(input) > MAX_DATA_LENGTH:
+                if not isinstance(input, str) or len(input) > MAX_DATA_LENGTH:
                     self.logger.error(
                         "RestAPI StartExecution: input size for execution '{}' exceeds "
                         "the maximum number of characters service limit.".format(name)
@@ -738,13 +745,13 @@ class RestAPI(object):
                     return aws_error("StateMachineDoesNotExist"), 400
 
                 status_filter = params.get("statusFilter")
-                if status_filter and status_filter not in {
+                if status_filter and status_filter not in (
                     "RUNNING",
                     "SUCCEEDED",
                     "FAILED",
                     "TIMED_OUT",
                     "ABORTED",
-                }:
+                ):
                     status_filter = None
 
                 """
